@@ -104,7 +104,7 @@ theorem framedAt_write (b : Nat) (hb : 4 ≤ b) (pos : Nat) (data : List UInt8) 
 
 theorem framed_tryPush (b : Nat) (hb : 4 ≤ b) (data : List UInt8) : Framed k b (tryPush data) := by
   intro s hc hr
-  unfold tryPush
+  rw [tryPush_v0]; unfold V0.tryPush
   split
   · exact Fr.refl _ b s hc
   · split
@@ -149,7 +149,7 @@ theorem framed_ghostLabels (b : Nat) (pos : Nat) (ls : List Label) (r : Bool) : 
 
 theorem framed_pushPointer (b : Nat) (hb : 4 ≤ b) (p : Nat) : Framed k b (pushPointer p) := by
   intro s hc hr
-  unfold pushPointer
+  rw [pushPointer_v0]; unfold V0.pushPointer
   have := framed_tryPushU16 (k := k) b hb (49152 + p) s hc hr
   rcases hw : tryPushU16 (49152 + p) s with ⟨(a | e | _), s1⟩
   · rw [hw] at this
@@ -160,7 +160,7 @@ theorem framed_pushPointer (b : Nat) (hb : 4 ≤ b) (p : Nat) : Framed k b (push
 
 theorem framed_writeUncompressedName (b : Nat) (hb : 4 ≤ b) (n : WName) : Framed k b (writeUncompressedName n) := by
   intro s hc hr
-  unfold writeUncompressedName
+  rw [writeUncompressedName_v0]; unfold V0.writeUncompressedName
   have := framed_tryPush (k := k) b hb n.wire s hc hr
   rcases hw : tryPush n.wire s with ⟨(a | e | _), s1⟩
   · rw [hw] at this
@@ -175,7 +175,7 @@ theorem framed_writeUncompressedName (b : Nat) (hb : 4 ≤ b) (n : WName) : Fram
 theorem framed_writeCompressedUnhintedName (b : Nat) (hb : 4 ≤ b) (n : WName) :
     Framed k b (writeCompressedUnhintedName n) := by
   intro s hc hr
-  unfold writeCompressedUnhintedName
+  rw [writeCompressedUnhintedName_v0]; unfold V0.writeCompressedUnhintedName
   split
   · exact Fr.refl _ b s hc
   · exact Fr.refl _ b s hc
@@ -207,14 +207,14 @@ theorem framed_writeCompressedUnhintedName (b : Nat) (hb : 4 ≤ b) (n : WName) 
 
 theorem framed_writeUnhintedName (b : Nat) (hb : 4 ≤ b) (n : WName) : Framed k b (writeUnhintedName n) := by
   intro s hc hr
-  unfold writeUnhintedName
+  rw [writeUnhintedName_v0]; unfold V0.writeUnhintedName
   split
   · exact framed_writeCompressedUnhintedName b hb n s hc hr
   · exact framed_writeUncompressedName b hb n s hc hr
 
 theorem framed_pushHinted (b : Nat) (hb : 4 ≤ b) (p : Prior) : Framed k b (pushHinted p) := by
   intro s hc hr
-  unfold pushHinted
+  rw [pushHinted_v0]; unfold V0.pushHinted
   have := framed_pushPointer (k := k) b hb p.ptr s hc hr
   rcases hw : pushPointer p.ptr s with ⟨(a | e | _), s1⟩
   · rw [hw] at this; exact this
@@ -224,7 +224,7 @@ theorem framed_pushHinted (b : Nat) (hb : 4 ≤ b) (p : Prior) : Framed k b (pus
 theorem framed_writeHintedName (b : Nat) (hb : 4 ≤ b) (hint : Hint) (n : WName) :
     Framed k b (writeHintedName hint n) := by
   intro s hc hr
-  unfold writeHintedName
+  rw [writeHintedName_v0]; unfold V0.writeHintedName
   split
   · exact framed_writeUncompressedName b hb n s hc hr
   · split
@@ -291,7 +291,7 @@ theorem framed_writeComponents (b : Nat) (hb : 4 ≤ b) : ∀ (ts : List CompTyp
 
 theorem framed_addRr (b : Nat) (hb : 4 ≤ b) (hint : Hint) (owner : WName) (ty cls ttl : Nat) (rdata : List UInt8) :
     Framed k b (addRr hint owner ty cls ttl rdata) := by
-  unfold addRr
+  rw [addRr_v0]; unfold V0.addRr
   refine framed_bind (framed_setCtx b _) fun _ => ?_
   refine framed_bind (framed_writeHintedName b hb hint owner) fun p => ?_
   refine framed_bind (framed_setCtx b _) fun _ => ?_
@@ -356,7 +356,7 @@ theorem framed_setCount (b : Nat) (sec : RrSection) (n : Nat) : Framed k b (setC
 
 theorem framed_addRrOp (b : Nat) (hb : 4 ≤ b) (sec : RrSection) (hint : Hint) (owner : WName) (ty cls ttlRaw : Nat)
     (rdata : List UInt8) : Framed k b (addRrOp sec hint owner ty cls ttlRaw rdata) := by
-  unfold addRrOp
+  rw [addRrOp_v0]; unfold V0.addRrOp
   apply framed_withRollback
   refine framed_bind (framed_changeSection b sec) fun _ => ?_
   refine framed_bind (framed_addRr b hb _ _ _ _ _ _) fun _ => ?_
@@ -367,7 +367,7 @@ theorem framed_addRrOp (b : Nat) (hb : 4 ≤ b) (sec : RrSection) (hint : Hint) 
 
 theorem framed_addRrsetOp (b : Nat) (hb : 4 ≤ b) (sec : RrSection) (hint : Hint) (owner : WName) (ty cls ttlRaw : Nat)
     (rdatas : List (List UInt8)) : Framed k b (addRrsetOp sec hint owner ty cls ttlRaw rdatas) := by
-  unfold addRrsetOp
+  rw [addRrsetOp_v0]; unfold V0.addRrsetOp
   apply framed_withRollback
   refine framed_bind (framed_changeSection b sec) fun _ => ?_
   refine framed_bind (framed_addRrset b hb _ _ _ _ _ _ _) fun n => ?_
@@ -471,7 +471,7 @@ theorem framed_setLimit (b : Nat) (nl : Nat) : Framed false b (setLimit nl) := b
 
 theorem framed_setTsig (b : Nat) (mode : TsigMode) (rr : TsigRr) : Framed false b (setTsig mode rr) := by
   intro s hc _
-  unfold setTsig
+  rw [setTsig_v0]; unfold V0.setTsig
   split
   · exact Fr.refl _ b s hc
   · dsimp only
@@ -484,7 +484,7 @@ theorem xrcode_mask : ∀ x y : UInt8, ((x &&& ~~~15) ||| (y &&& 15)) &&& 0xF0 =
 
 theorem framed_setExtendedRcode (b : Nat) (hb : 4 ≤ b) (raw : Nat) : Framed k b (setExtendedRcode raw) := by
   intro s hc hr
-  unfold setExtendedRcode
+  rw [setExtendedRcode_v0]; unfold V0.setExtendedRcode
   split
   · rename_i e0 hedns
     split
@@ -546,7 +546,7 @@ theorem finishWithMac_eq (macFn : Tsig → List UInt8 → List UInt8) (s : State
       (do write Gen.QDCOUNT_START (u16be s.qdcount); write Gen.ANCOUNT_START (u16be s.ancount)
           write Gen.NSCOUNT_START (u16be s.nscount); write Gen.ARCOUNT_START (u16be s.arcount)
           finishEdnsPart s.edns; finishTsigPart macFn s.tsig) s := by
-  unfold finishWithMac
+  rw [finishWithMac_v0]; unfold V0.finishWithMac
   rw [bind_ok (get_apply s)]
   generalize s.edns = e
   generalize s.tsig = t
